@@ -130,7 +130,7 @@ PROPS = {
                 'Cell accessor contracts (car, cdr, is_pair, is_nil, is_list, collect_vec, clone) assumed from their one-line bodies in cell.rs; Lambda::emit and Lambda::argc are verified (unit lambda; a Vec holds at most isize::MAX elements: axiom_vec_len); Lambda::binding_location assumed to answer an argument index below the argument count; core identity From<T> for T assumed (axiom_into_self); str extensionality (axiom_str_ext); a datum has fewer than 2^64 pairs (axiom_spine_fits, used for the argument counter)',
                 'executable rewrite inside compile_if: the slice-pattern match is desugared to length tests and indexing (Verus has no slice patterns)',
             ]},
-    'C05': {'groups': ['cont', 'runone'],
+    'C05': {'groups': ['cont', 'runone'], 'search': 'search_cont',
             'assumptions': [
                 'scope: the capture / restore laws of Stack and Vm (to_continuation, restore_continuation, push, pop, grow, clear) and the call/cc procedure (capture after popping argument count and receiver, before the instruction pointer is moved back; receiver returned; continuation object and argc 1 pushed); the invocation arm of run_one (CALL / TCALL with a continuation in %acc) is verified in group runone: pop the argument count (zero arguments is an error) and the value cell, restore the captured control state, deliver that very cell in %acc; run_one there is scoped by precondition to call instructions (see C04) and requires the capture to be well-formed and no longer than the running stack', 'Vm::pop (the dereferencing pop, not used by the invocation arm) carries an assumed contract so that a change to it stays decidable',
                 'Continuation is opaque to Verus (derive(Clone) over a tuple field, private fields): its four getters and the struct literal in Vm::to_continuation carry assumed contracts',
